@@ -32,7 +32,7 @@ theorem C18_decoded_equals_identity (blocks : List Block) (path ae : Bytes) (i :
     refine ⟨rfl, rfl, rfl, ?_, rfl⟩
     unfold decision responsePasses at hd
     simp only [Bool.and_eq_true] at hd
-    exact hd.1
+    exact hd.2.1
 
 /-- Responses that are already encoded are not encoded again (nor is their Content-Encoding
 touched): whatever coding the inner response declares, known to casket or not. -/
@@ -44,7 +44,7 @@ theorem C18_no_double_encoding (blocks : List Block) (path ae : Bytes) (i : Inne
     unfold unencoded at h
     simp only [Bool.and_eq_true] at hd
     rw [h] at hd
-    exact absurd hd.1 (by simp)
+    exact absurd hd.2.1 (by simp)
 
 /-- Clients that did not offer gzip (no gzip coding listed, or listed with q=0) receive exactly
 the response of the chain without the middleware. -/
@@ -53,6 +53,62 @@ theorem C18_identity_when_not_offered (blocks : List Block) (path ae : Bytes) (i
   rcases gzipRun_cases blocks path ae i with h' | ⟨hae, _⟩
   · exact h'
   · unfold offersGzip at h; rw [h] at hae; cases hae
+
+/-- A 204 response has no content: it is never labelled with a coding, whatever the
+configuration and the client (the response is exactly the plain one). -/
+theorem C18_no_content_untouched (blocks : List Block) (path ae : Bytes) (i : Inner)
+    (h : (plainRun i).status = 204) : gzipRun blocks path ae i = plainRun i := by
+  rcases gzipRun_cases blocks path ae i with h' | ⟨_, b, code, _, hd, hp, _⟩
+  · exact h'
+  · rw [hp] at h
+    simp only at h
+    unfold decision at hd
+    rw [h] at hd
+    simp at hd
+
+/-- On the wire (net/http's suppression of bodies, trusted): for HEAD requests and the statuses
+204 and 304 the two executions have the same status and no body, a 204 is identical in both, a
+304 and a HEAD response are either identical or carry exactly the header rewriting of the
+compressed response they stand for — and only for a client that offers gzip. -/
+theorem C18_bodiless_model_verdict_ok (blocks : List Block) (path ae : Bytes) (i : Inner) (head : Bool)
+    (hb : bodiless head (plainRun i).status = true) :
+    bodilessVerdict ae head (observe (wire head (gzipRun blocks path ae i))) (observe (wire head (plainRun i))) true = "ok" := by
+  have hws : ∀ r : Resp, (wire head r).status = r.status := by
+    intro r; unfold wire; split <;> rfl
+  rcases gzipRun_cases blocks path ae i with h | ⟨hae, b, code, wr, hd, hp, hg⟩
+  · rw [h]
+    unfold bodilessVerdict
+    have : bodiless head (observe (wire head (plainRun i))).status = true := by
+      show bodiless head (wire head (plainRun i)).status = true
+      rw [hws]; exact hb
+    simp only [this, Bool.not_true, Bool.false_eq_true, if_false]
+    unfold wire
+    simp only [hb, if_true, observe]
+    by_cases h24 : (plainRun i).status = 204 ∨ (plainRun i).status = 304
+    · simp [h24]
+    · have h1 : ¬ (plainRun i).status = 204 := fun e => h24 (Or.inl e)
+      have h2 : ¬ (plainRun i).status = 304 := fun e => h24 (Or.inr e)
+      simp [h24, h1, h2]
+  · rw [hp] at hb
+    simp only at hb
+    have hne204 : ¬ code = 204 := by
+      unfold decision at hd
+      simp only [Bool.and_eq_true, bne_iff_ne, ne_eq] at hd
+      exact hd.1
+    unfold decision responsePasses skipFilter at hd
+    simp only [Bool.and_eq_true] at hd
+    have hun : unencoded i.hdr.ce = true := hd.2.1
+    have hne : ¬ (Coding.gzip.name = i.hdr.ce) := by
+      intro heq
+      unfold unencoded at hun
+      rw [← heq] at hun
+      revert hun; decide
+    rw [hp, hg]
+    unfold bodilessVerdict wire
+    simp only [hb, if_true, observe, rewrite, Bool.not_true, Bool.false_eq_true, if_false]
+    by_cases h3 : code = 304
+    · simp [h3, hne, hun, offersGzip, hae]
+    · simp [h3, hne204, hne, hun, offersGzip, hae]
 
 /-- Content-Length is absent or correct: the middleware never makes it wrong. -/
 theorem C18_content_length_absent_or_correct (blocks : List Block) (path ae : Bytes) (i : Inner) :
@@ -72,7 +128,7 @@ theorem C18_model_verdict_ok (blocks : List Block) (path ae : Bytes) (i : Inner)
   · rw [hp, hg]
     unfold decision responsePasses skipFilter at hd
     simp only [Bool.and_eq_true] at hd
-    have hun : unencoded i.hdr.ce = true := hd.1
+    have hun : unencoded i.hdr.ce = true := hd.2.1
     have hne : ¬ (Coding.gzip.name = i.hdr.ce) := by
       intro heq
       unfold unencoded at hun
